@@ -623,3 +623,109 @@ package dht
 //@   callsite (*dht/traversal.Operation).Stop the-lookup-started-here: $op == recorded("lookup")
 //@   ensures the-lookup-started-is-stopped-on-every-path: count("call:dht/traversal.Start") == count("call:(*dht/traversal.Operation).Stop")
 //@   ensures one-lookup-at-most: count("call:dht/traversal.Start") <= 1
+
+// ---- C16: announce hands each node back its own token ----
+// A reply becomes a lookup result: the responder is the node that was asked, with the ID it reported; the data kept
+// with it is the token of that same reply, and there is none if the reply had none.
+//@ func (dht.QueryResult).TraversalQueryResult
+//@   ensures no-reply-no-responder: me.Reply.R == nil ==> ret.ResponseFrom == nil && ret.ClosestData == nil
+//@   ensures the-responder-is-the-node-asked: me.Reply.R != nil ==> ret.ResponseFrom != nil && ret.ResponseFrom.ID == me.Reply.R.ID && ret.ResponseFrom.Addr.Port == addr.Port && ret.ResponseFrom.Addr.IP == addr.IP
+//@   ensures the-token-of-this-reply: me.Reply.R != nil && me.Reply.R.Token != nil ==> typeis(ret.ClosestData, string) && unbox(ret.ClosestData, string) == *me.Reply.R.Token
+//@   ensures no-token-no-data: me.Reply.R != nil && me.Reply.R.Token == nil ==> ret.ClosestData == nil
+//@   ensures the-neighbours-of-this-reply: me.Reply.R != nil ==> ret.Nodes == me.Reply.R.Nodes && ret.Nodes6 == me.Reply.R.Nodes6
+
+//@ func (dht/krpc.NodeAddr).UDP
+//@   trusted
+//@ func (dht/krpc.NodeAddrPort).UDP
+//@   trusted
+//@   option records udp
+//@ func (*dht.Server).GetPeers
+//@   trusted
+//@   option records getpeers
+// One get_peers query of the announce lookup: the reply is offered once on Peers with the responder's address and ID,
+// abandoned only if the lookup is stopped; the lookup gets the result derived from that same reply.
+//@ func (*dht.Announce).getPeers
+//@   requires nonnil: a != nil && a.server != nil && a.traversal != nil && ctx != nil
+//@   modifies *
+//@   callsite (*dht.Server).GetPeers the-announced-infohash: $s == a.server && $infoHash == a.infoHash && $scrape == a.scrape && $ctx == ctx
+//@   callsite select-send:Peers the-responder-with-its-reply: recorded("getpeers").Reply.R != nil && $0.NodeInfo.ID == recorded("getpeers").Reply.R.ID && $0.NodeInfo.Addr.Port == addr.Port && $0.NodeInfo.Addr.IP == addr.IP && $0.Peers == recorded("getpeers").Reply.R.Values && $0.Return.Token == recorded("getpeers").Reply.R.Token
+//@   callsite (dht.QueryResult).TraversalQueryResult the-reply-of-this-query: $me == recorded("getpeers") && $addr.Port == addr.Port && $addr.IP == addr.IP
+//@   ensures one-delivery-at-most: count("select-send:Peers") <= 1
+//@   ensures abandoned-only-when-the-lookup-is-stopped: count("select-send:Peers") == 1 ==> offers(donechan(&a.traversal.stopped))
+//@   ensures one-query: count("call:(*dht.Server).GetPeers") == 1 && count("call:(dht.QueryResult).TraversalQueryResult") == 1
+
+// the data filter of an announce lookup admits exactly string tokens
+//@ func (*dht.Server).AnnounceTraversal$1
+//@   ensures only-string-tokens: result == typeis(data, string)
+
+//@ func (*dht.Server).AnnounceTraversal
+//@   requires nonnil: s != nil && !held(s.mu)
+//@   requires no-nil-options: forall i int :: 0 <= i && i < len(opts) ==> opts[i] != nil
+//@   modifies *
+//@   callsite dht/traversal.Start a-get_peers-lookup-for-this-infohash: $input.Target == infoHash && $input.DoQuery == boundfn("(*dht.Announce).getPeers", a) && $input.DataFilter == fn("(*dht.Server).AnnounceTraversal$1") && $input.NodeFilter == boundfn("(*dht.Server).TraversalNodeFilter", s) && a.infoHash.bits == infoHash && a.server == s
+//@   callsite (*dht/traversal.Operation).Stop the-lookup-started-here: $op == recorded("lookup")
+//@   callsite go:(*dht.Server).AnnounceTraversal$2 finishes-this-announce: $a == a && a.traversal == recorded("lookup")
+//@   ensures stopped-if-it-cannot-start: err != nil ==> count("call:(*dht/traversal.Operation).Stop") == 1 && count("go:(*dht.Server).AnnounceTraversal$2") == 0
+//@   ensures one-finisher-otherwise: err == nil ==> count("go:(*dht.Server).AnnounceTraversal$2") == 1 && count("call:(*dht/traversal.Operation).Stop") == 0
+//@   loop 1
+//@     invariant the-announce: a != nil && a.server == s && a.infoHash.bits == infoHash && count("call:dht/traversal.Start") == 0
+
+// The finishing goroutine: wait for the lookup to stall, stop it, wait until it has stopped, announce (only if asked to),
+// signal that the announce is finished, close the channel -- in that order.
+//@ func (*dht.Server).AnnounceTraversal$2
+//@   requires nonnil: a != nil && a.traversal != nil
+//@   modifies *
+//@   callsite (*dht/traversal.Operation).Stop after-the-lookup-stalled: count("chan:recv") == 1
+//@   callsite (*dht.Announce).announceClosest only-when-announcing-and-after-the-lookup-stopped: count("call:(*dht/traversal.Operation).Stop") == 1 && count("chan:recv") == 2 && a.announcePeerOpts != nil
+//@   callsite (*github.com/anacrolix/chansync.SetOnce).Set finished-only-after-the-lookup-stopped: $me == &a.peerAnnounced && count("chan:recv") == 2
+//@   callsite close:Peers closed-last: count("call:(*github.com/anacrolix/chansync.SetOnce).Set") == 1 && $0 == a.Peers
+//@   ensures closes-the-channel-once: count("close:Peers") == 1
+
+//@ func (*sync.WaitGroup).Add
+//@   trusted
+//@ func (*sync.WaitGroup).Done
+//@   trusted
+//@ func (*sync.WaitGroup).Wait
+//@   trusted
+// announce_peer goes to the members of the final result set, one per member, each with its own data
+//@ func (*dht.Announce).announceClosest
+//@   requires nonnil: a != nil && a.traversal != nil
+//@   modifies *
+//@   callsite (*dht/k-nearest-nodes.Type).Range the-final-result-set: $me == &a.traversal.closest && $f != nil
+//@   ensures one-pass: count("call:(*dht/k-nearest-nodes.Type).Range") == 1
+//@ func (*dht.Announce).announceClosest$1
+//@   requires nonnil: a != nil
+//@   modifies *
+//@   callsite go:(*dht.Announce).announceClosest$1$1 one-announce-for-that-member: $elem == elem && $a == a
+//@   ensures one-announce-per-member: count("go:(*dht.Announce).announceClosest$1$1") == 1
+//@ func (*dht.Announce).logger
+//@   trusted
+//@ func (*dht.Announce).announceClosest$1$1
+//@   requires nonnil: a != nil
+//@   modifies *
+//@   callsite (*dht.Announce).announcePeer the-member-it-was-spawned-for: $peer == elem && $a == a
+//@   ensures one-announce: count("call:(*dht.Announce).announcePeer") == 1
+
+//@ func (*dht.Announce).announcePeer$1@cancel
+//@   trusted
+//@ func (*dht.Announce).announcePeer$1
+//@   requires nonnil: a != nil && ctx != nil && cancel != nil
+//@   ensures cancels-when-the-announce-is-closed: offers(donechan(&a.closed)) && (selected(ctx.Done()) || count("call:dynamic:cancel") == 1)
+//@ func (*dht.Announce).announcePeer
+//@   requires nonnil: a != nil && a.server != nil && a.announcePeerOpts != nil && !held(a.server.mu)
+//@   requires a-token: typeis(peer.Data, string)
+//@   modifies *
+//@   callsite (dht/krpc.NodeAddrPort).UDP the-address-of-that-member: $me == peer.Key.Addr
+//@   callsite dht.NewAddr the-address-of-that-member: typeis($raw, *net.UDPAddr) && unbox($raw, *net.UDPAddr) == recorded("udp")
+//@   callsite (*dht.Server).announcePeer to-that-member-with-its-own-token: $s == a.server && $node == recorded("newaddr") && $infoHash == a.infoHash && $port == a.announcePeerOpts.Port && $impliedPort == a.announcePeerOpts.ImpliedPort && $token == unbox(peer.Data, string)
+//@   ensures one-announce: count("call:(*dht.Server).announcePeer") == 1
+
+//@ func (dht/krpc.Msg).Error
+//@   trusted
+//@ func (*dht.Server).announcePeer
+//@   requires nonnil: s != nil && node != nil && ctx != nil && !held(s.mu)
+//@   modifies *
+//@   callsite (*dht.Server).Query an-announce_peer-with-these-arguments: $s == s && $q == "announce_peer" && $addr == node && $ctx == ctx && $input.MsgArgs.ImpliedPort == impliedPort && $input.MsgArgs.InfoHash == infoHash.bits && $input.MsgArgs.Port != nil && *$input.MsgArgs.Port == port && $input.MsgArgs.Token == token
+//@   ensures no-port-no-query: port == 0 && !impliedPort ==> count("call:(*dht.Server).Query") == 0
+//@   ensures no-port-is-an-error: port == 0 && !impliedPort ==> ret.Err != nil
+//@   ensures one-query-otherwise: !(port == 0 && !impliedPort) ==> count("call:(*dht.Server).Query") == 1
